@@ -426,6 +426,8 @@ var Scenarios = []Scenario{
 		l.add("65508 bytes: %s", class(err))
 		n, err := a.WriteTo(make([]byte, 65507), b.LocalAddr())
 		l.add("65507 bytes: n=%d %s", n, class(err))
+		_, err = a.WriteTo([]byte("x"), &net.UDPAddr{IP: net.IPv4(127, 0, 0, 1), Port: 0})
+		l.add("destination port 0: %s einval=%v", class(err), errors.Is(err, syscall.EINVAL))
 	}},
 	{"udp-rebind-conflict", func(e env, l *log) {
 		a, _ := e.listenUDP("127.0.0.1:0")
